@@ -55,7 +55,8 @@ Inductive pobj :=
 Inductive op :=
 | Alloc
 | Put (n g : N) (o : pobj) (big : bool)
-| WriteCompressed (rs : list (N * N)) (os : list pobj) (big : bool)
+| WriteCompressed (rs : list (N * N)) (os : list pobj) (bigs : list bool)
+  (* [bigs]: one flag per object stream that the call writes *)
 | OpenStream (n g : N) (d : dict) (fs : list filt)
 | Write (bs : bytes) (started : bool)   (* [started]: the sink grew during this call (angelic:
                                            filter encoders emit their output when they please) *)
@@ -485,7 +486,37 @@ Section Writer.
     | _, _ => st
     end.
 
-  Definition write_compressed (rs : list (N * N)) (os : list pobj) (big : bool) (st : state) : res state :=
+  (* one object stream holding the whole batch (rs, os) *)
+  Definition wc_one (rs : list (N * N)) (os : list pobj) (big : bool) (st : state) : res state :=
+    bind (alloc st) (fun '(sref, st1) =>
+    bind (set_comp sref 0 rs st1) (fun st2 =>
+    let '(head, body) := objstm_parts rs (map (fun o => fmt (pobj_obj o)) os) 0 in
+    let d := [(k_Type, OName k_ObjStm); (k_N, OInt (Z.of_nat (length os)));
+              (k_First, OInt (Z.of_nat (length head)))] in
+    bind (open_stream sref 0 d [flate_filt] (record_all rs os st2)) (fun st3 =>
+    match strm st3 with
+    | None => Err Panic
+    | Some s =>
+      close_stream big (with_strm (Some {| s_num := s_num s; s_gen := s_gen s; s_dict := s_dict s;
+                                      s_fs := s_fs s; s_buf := head ++ body;
+                                      s_started := false; s_lenref := None |}) st3)
+    end))).
+
+  (* maxObjStmMembers: readers refuse larger object streams, so a larger batch is split *)
+  Definition max_members : nat := N.to_nat 10000.
+
+  Fixpoint wc_chunks (fuel : nat) (rs : list (N * N)) (os : list pobj) (bigs : list bool) (st : state)
+    : res state :=
+    match fuel with
+    | O => Err OutOfFuel
+    | S f =>
+      if Nat.ltb max_members (length os) then
+        bind (wc_one (firstn max_members rs) (firstn max_members os) (hd false bigs) st)
+             (wc_chunks f (skipn max_members rs) (skipn max_members os) (tl bigs))
+      else wc_one rs os (hd false bigs) st
+    end.
+
+  Definition write_compressed (rs : list (N * N)) (os : list pobj) (bigs : list bool) (st : state) : res state :=
     match strm st with
     | Some _ => Err Other
     | None =>
@@ -494,20 +525,7 @@ Section Writer.
       | [] => Ok st
       | _ =>
         if negb (use_objstm c) then put_all rs os st
-        else
-          bind (alloc st) (fun '(sref, st1) =>
-          bind (set_comp sref 0 rs st1) (fun st2 =>
-          let '(head, body) := objstm_parts rs (map (fun o => fmt (pobj_obj o)) os) 0 in
-          let d := [(k_Type, OName k_ObjStm); (k_N, OInt (Z.of_nat (length os)));
-                    (k_First, OInt (Z.of_nat (length head)))] in
-          bind (open_stream sref 0 d [flate_filt] (record_all rs os st2)) (fun st3 =>
-          match strm st3 with
-          | None => Err Panic
-          | Some s =>
-            close_stream big (with_strm (Some {| s_num := s_num s; s_gen := s_gen s; s_dict := s_dict s;
-                                            s_fs := s_fs s; s_buf := head ++ body;
-                                            s_started := false; s_lenref := None |}) st3)
-          end)))
+        else wc_chunks (S (length os)) rs os bigs st
       end
     end.
 
@@ -614,7 +632,7 @@ Section Writer.
     match o with
     | Alloc => bind (alloc st) (fun '(_, st1) => Ok st1)
     | Put n g x big => put n g x big st
-    | WriteCompressed rs os big => write_compressed rs os big st
+    | WriteCompressed rs os bigs => write_compressed rs os bigs st
     | OpenStream n g d fs => open_stream n g d fs st
     | Write bs started => write_stream bs started st
     | CloseStream big => close_stream big st
